@@ -4,6 +4,7 @@ panic-capable sites of the parser are exactly the reviewed set (grammar-dependen
 re-checked against cypher.pest)."""
 from ..cfg import Body
 from ..report import where
+from .. import orderdom as od
 from ..facts import in_module
 from .. import taint
 
@@ -20,6 +21,11 @@ EXCEPTIONS = {
 G = None
 # reviewed panic-capable sites of query::parser: key -> (argument, grammar fact it leans on or None)
 PANIC_REVIEWED = {
+    "parse_predicate_function|position-call:remove|0": ("expressions.remove(0) after `expressions.len() < 2` returned an error just above", ""),
+    "parse_predicate_function|position-call:remove|1": ("second expressions.remove(0): at least two elements were checked, one removed", ""),
+    "parse_case_expression|position-call:remove|0": ("exprs.remove(0) inside `if exprs.len() == 2`", ""),
+    "parse_case_expression|position-call:remove|1": ("second exprs.remove(0) inside `if exprs.len() == 2`", ""),
+    "parse_path|position-call:remove|0": ("nodes.remove(0) after `nodes.is_empty()` returned an error", ""),
     "parse_expression|index|0": ("terms[i] with i < ops.len() and terms.len() == ops.len() + 1 checked on the line above", G),
     "parse_expression|index|1": ("terms[i + 1] with i < ops.len() and terms.len() == ops.len() + 1", G),
     "parse_expression|assert:overflow:Add|0": ("ops.len() + 1 on a Vec length", G),
@@ -173,6 +179,9 @@ def run(ctx, F, cg):
                 sites.append(("panic", c.line))
             elif mm in ("index", "index_mut") and ("Index" in c.path or "index" in c.path) and "RangeFull" not in c.full:
                 sites.append(("index", c.line))
+            elif mm in ("split_at", "split_at_mut", "split_off", "swap_remove", "copy_from_slice", "clone_from_slice", "swap", "rotate_left", "rotate_right", "insert_str", "remove") and ("str" in c.path or "slice" in c.path or "Vec" in c.path or "String" in c.path):
+                # std calls that panic on an out-of-range position or a non-char-boundary
+                sites.append(("position-call:" + mm, c.line))
         for i in sorted(b.live_blocks()):
             t = b.blocks[i]["t"]
             if t[0] == "assert":
@@ -192,6 +201,25 @@ def run(ctx, F, cg):
             else:
                 ctx.ok("R25c", inst, why + (" [grammar: %s]" % gfact if gfact else ""))
     ctx.floor("R25c", "panic-capable sites in the parser", nsite, 25)
+    # ---- R25e: float literals that overflow are refused ---------------------------------------------------------------
+    ctx.rule("R25e", "str::parse::<f64> answers infinity for a literal that does not fit, it does not fail: every function of the parser that parses a float literal tests the result with is_finite / is_infinite before using it")
+    n_fp = 0
+    for p_, r_ in sorted(fns.items()):
+        m_ = F.mir(p_)
+        if m_ is None:
+            continue
+        b_ = Body(m_, r_)
+        fps = [c for c in b_.calls() if (c.path.rsplit("::", 1)[-1] in ("parse", "from_str")) and ("f64" in c.full or "f32" in c.full)]
+        for k_, c in enumerate(fps):
+            n_fp += 1
+            derived = b_.forward_taint({c.dest[0]}, through_calls=lambda cc, ix: cc.path.rsplit("::", 1)[-1] in ("map_err", "branch", "unwrap_or", "ok", "map"))
+            tested = [cc for cc in b_.calls() if cc.path.rsplit("::", 1)[-1] in ("is_finite", "is_infinite", "is_nan") and cc.args and cc.args[0][0] != "k" and (od.chain_locals(b_, cc.args[0]) & derived or cc.args[0][1][0] in derived)]
+            inst = "%s|float-parse|%d" % (p_.replace(MOD + "::", ""), k_)
+            if tested:
+                ctx.ok("R25e", inst, "result tested with %s" % tested[0].path.rsplit("::", 1)[-1])
+            else:
+                ctx.violation("R25e", inst + "|overflow-becomes-infinity", where(r_, c.line), "a float literal is parsed without a finiteness test: `1e999` becomes infinity instead of an out-of-range error")
+    ctx.floor("R25e", "float literal parses in the parser", n_fp, 1)
     # ---- R25d bounded recursion depth -------------------------------------------------------------------------
     ctx.rule("R25d", "parse_query runs a nesting-depth guard before the recursive pest parser: a local function that counts the opening brackets, compares the depth with a constant and returns an error, whose result is propagated with `?` and which dominates every CypherParser::parse call")
     from .. import consts as _consts
